@@ -17,7 +17,7 @@ pub fn run(ctx: &Ctx) -> Report {
     let mut rep = Report::new(
         "exploration",
         "case i: one generated tree (profile=i%14); a member named _sd / ... is planted at EVERY object position (and as a new \
-         single-member object appended to EVERY array) in turn, value kind rotating over 6 kinds, under 4 strategies x 2 formats; \
+         single-member object appended to EVERY array) in turn, value kind rotating over 15 kinds (plain values and genuine-looking digest lists / placeholders), under 4 strategies x 2 formats; \
          control = the unplanted tree and 9 near-miss plants must be issued. evaluations = issue_sd_jwt calls. Distinct = (claims \
          shape, plant position index, name, strategy, format); every planted case is non-trivial.",
         local,
@@ -111,7 +111,15 @@ fn one_case(ctx: &Ctx, case: u64, l: &mut Local) {
         gen::gen_strategy(&mut r, &u, StratKind::AllLevels),
         gen::gen_strategy(&mut r, &u, StratKind::Custom40),
     ];
-    let values = [json!("x"), json!(["d1", "d2"]), json!(null), json!({"a": 1}), json!(7), json!([])];
+    // "with any value": plain values, and values that look exactly like what the issuer itself
+    // would write there (lists of genuine-looking SHA-256 digests, a digest string, a placeholder)
+    let dg = |t: &str| crate::model::digest_of(t);
+    let values = [
+        json!("x"), json!(["d1", "d2"]), json!(null), json!({"a": 1}), json!(7), json!([]),
+        json!([dg("a"), dg("b"), dg("c")]), json!([dg("only")]), json!(dg("bare")), json!({"...": dg("p")}), json!([{"...": dg("q")}]), json!(true),
+        json!((0..40).map(|i| dg(&i.to_string())).collect::<Vec<_>>()), json!(""), json!([[dg("n")]]),
+    ];
+    let nv = values.len();
     let alg: Alg = ALL_ALGS[(case % 3) as usize];
     let mut issuer = api::new_issuer(alg, 0, true);
     let shape = gen::shape_fingerprint(&u);
@@ -134,10 +142,10 @@ fn one_case(ctx: &Ctx, case: u64, l: &mut Local) {
         }
     }
     // plants
-    let mut vk = r.usize(6);
+    let mut vk = r.usize(nv);
     for t in 0..sites {
         for name in ["_sd", "..."] {
-            vk = (vk + 1) % 6;
+            vk = (vk + 1) % nv;
             let mut pos = String::new();
             let planted = plant(&u, t, &mut 0, 0, false, name, &values[vk], r.chance(50), &mut pos);
             l.count(&format!("position.{pos}"));
@@ -162,8 +170,8 @@ fn one_case(ctx: &Ctx, case: u64, l: &mut Local) {
     // both reserved names in the SAME object (every site, one strategy / format each)
     for t in 0..sites {
         let mut pos = String::new();
-        let one = plant(&u, t, &mut 0, 0, false, "_sd", &values[vk % 6], r.chance(50), &mut pos);
-        let both = plant(&one, t, &mut 0, 0, false, "...", &values[(vk + 1) % 6], r.chance(50), &mut pos);
+        let one = plant(&u, t, &mut 0, 0, false, "_sd", &values[vk % nv], r.chance(50), &mut pos);
+        let both = plant(&one, t, &mut 0, 0, false, "...", &values[(vk + 1) % nv], r.chance(50), &mut pos);
         let st = &strategies[t % 4];
         let fmt = FMTS[t % 2];
         l.evals += 1;
